@@ -178,6 +178,52 @@ func c18WatchChild(scPath string) int {
 		rep.violation("watcher/work-while-paused", fmt.Sprintf("%d seeds were taken by workers that had acknowledged the low-disk pause", recvWhilePaused), nil)
 	}
 	mu.Unlock()
+	// A worker that is in the middle of a fetch acknowledges a pause late. While the watchdog's resume is
+	// still waiting for it, the disk runs low again: once the worker has caught up, the pipeline must end
+	// up paused (free space is below the threshold and stays there).
+	{
+		mu.Lock()
+		acksBefore := acks
+		mu.Unlock()
+		slow := pause.Subscribe()
+		release := make(chan struct{})
+		slowDone := make(chan struct{})
+		go func() {
+			defer close(slowDone)
+			first := true
+			for range slow.PauseCh {
+				if first {
+					<-release // the fetch ends only now
+					first = false
+				}
+				slow.ResumeCh <- struct{}{}
+			}
+		}()
+		config.Get().MinSpaceRequired = high
+		if waitFor(func() bool { mu.Lock(); defer mu.Unlock(); return pause.IsPaused() && acks >= acksBefore+4 }) {
+			rep.Evaluations++
+			config.Get().MinSpaceRequired = low
+			time.Sleep(500 * time.Millisecond) // > 10 watcher ticks: the resume has started and waits for the slow worker
+			config.Get().MinSpaceRequired = high
+			time.Sleep(500 * time.Millisecond) // low again for > 10 ticks while that resume is pending
+			close(release)
+			if !waitFor(func() bool { return pause.IsPaused() }) {
+				rep.violation("watcher/not-paused-below-threshold/low-again-while-resume-pending", fmt.Sprintf("free space is below --min-space-required=%.1f GiB (it dropped again while the watchdog's resume was waiting for a slow worker); 100 watcher ticks after that worker caught up the pipeline is still running", high), nil)
+				watchers.StopDiskWatcher()
+				return 0
+			}
+			rep.distinct("low-again-while-resume-pending/paused")
+		} else {
+			rep.inconclusive("watcher-did-not-pause-for-the-slow-worker-phase")
+		}
+		config.Get().MinSpaceRequired = low
+		waitFor(func() bool { return !pause.IsPaused() })
+		mu.Lock()
+		acksAfterSlow := acks
+		mu.Unlock()
+		_ = acksAfterSlow
+		pause.Unsubscribe(slow)
+	}
 	var opt struct {
 		StopWhileLow bool `json:"stop_while_low"`
 	}
@@ -188,8 +234,11 @@ func c18WatchChild(scPath string) int {
 	}
 	// C14 / C03: shutdown requested while the disk watchdog holds the pipeline paused and the disk is
 	// still low. The stop sequence begins with StopDiskWatcher(): it must return whatever the disk does.
+	mu.Lock()
+	acksBeforeStop := acks
+	mu.Unlock()
 	config.Get().MinSpaceRequired = high
-	if !waitFor(func() bool { mu.Lock(); defer mu.Unlock(); return pause.IsPaused() && acks >= 4*4 }) {
+	if !waitFor(func() bool { mu.Lock(); defer mu.Unlock(); return pause.IsPaused() && acks >= acksBeforeStop+4 }) {
 		rep.inconclusive("watcher-did-not-pause-for-the-stop-phase")
 		watchers.StopDiskWatcher()
 		return 0
